@@ -43,7 +43,7 @@ func init() {
 					continue
 				}
 				k++
-				c.check(cn == "(*l1.Client).setL1Head", "who-writes", "Blockchain.SetL1Head ← "+cn, p.Pos(s.Pos()), "only the L1 client", "Blockchain.SetL1Head is called from "+cn+": the L1 head could be set without the finality check")
+				c.check(cn == "(*l1.Client).setL1Head" || (pkgRelOf(s.Fn) == "l1" && p.calledOnlyFrom(s.Fn, "setL1Head", 0)), "who-writes", "Blockchain.SetL1Head ← "+cn, p.Pos(s.Pos()), "only the L1 client", "Blockchain.SetL1Head is called from "+cn+": the L1 head could be set without the finality check")
 			}
 			if k == 0 {
 				c.und("who-writes", "Blockchain.SetL1Head", "", "no caller")
@@ -86,16 +86,21 @@ func init() {
 				c.check(okp, "guards", "finalisedHeight = provider.FinalisedHeight", p.Pos(fnPos(fh)), "finality is the provider's finalised block", "the finalised height no longer comes from provider.FinalisedHeight")
 			}
 			// head fields
-			hs := findSite(sl, "SetL1Head")
-			if hs != nil {
+			var hs *Site
+			if dss := p.deepSites(sl, nameMatcher("SetL1Head"), 2); len(dss) > 0 {
+				hs = &dss[0].Site
+			}
+			if hs == nil {
+				c.und("guards", "setL1Head: head fields", p.Pos(fnPos(sl)), "call of Blockchain.SetL1Head not found in setL1Head or its helpers")
+			} else {
 				got := map[string]string{}
-				allInstrs(sl, func(in ssa.Instruction) {
-					if st, ok := in.(*ssa.Store); ok {
+				for _, di := range p.deepInstrs(sl, 2) {
+					if st, ok := di.In.(*ssa.Store); ok {
 						if fa, ok := st.Addr.(*ssa.FieldAddr); ok && isNamed(fa.X.Type(), "core", "L1Head") {
 							got[fieldName(fa.X.Type(), fa.Field)] = term(st.Val)
 						}
 					}
-				})
+				}
 				okf := strings.HasSuffix(got["BlockNumber"], ".L2BlockNumber") && strings.HasSuffix(got["BlockHash"], ".L2BlockHash") && strings.HasSuffix(got["StateRoot"], ".StateRoot")
 				c.check(okf, "guards", "setL1Head: head = (L2BlockNumber, L2BlockHash, StateRoot) of the chosen commit", p.Pos(hs.Pos()), "fields copied from the chosen commit", fmt.Sprintf("L1 head fields are %v", got))
 			}
@@ -467,6 +472,31 @@ func c17BufOps(p *Prog, fn *ssa.Function) []c17BufOp {
 		case *ssa.Lookup:
 			if isBuf(x.X) {
 				out = append(out, c17BufOp{kind: "lookup", in: x, cond: p.mustHoldChain(x, di.Chain)})
+			}
+		case *ssa.Extract:
+			// the element variable of `for k, v := range buffer`: it is "looked up" where it is assigned to a variable
+			// that outlives the iteration (an edge of a φ), under the condition of that edge
+			nx, ok := x.Tuple.(*ssa.Next)
+			if !ok || x.Index != 2 || x.Referrers() == nil {
+				continue
+			}
+			rg, ok := nx.Iter.(*ssa.Range)
+			if !ok || !isBuf(rg.X) {
+				continue
+			}
+			for _, r := range *x.Referrers() {
+				phi, isPhi := r.(*ssa.Phi)
+				if !isPhi {
+					continue
+				}
+				for i, e := range phi.Edges {
+					if e != ssa.Value(x) {
+						continue
+					}
+					b := &bform{p: p, visited: map[ssa.Value]bool{}}
+					cond := b.pathCond(phi.Block().Preds[i], phi.Block(), phi.Parent(), 0)
+					out = append(out, c17BufOp{kind: "lookup", in: phi, cond: p.liftChain(cond, di.Chain)})
+				}
 			}
 		case *ssa.MapUpdate:
 			if isBuf(x.Map) {
